@@ -281,41 +281,19 @@ class EnvBoundaryMPS():
                     OPv[ny] = {}
                 OPv[ny][bond] = ops
 
+        # contract a single column (row) between its two boundary MPSs: exact, and the fermionic strings of charged
+        # operators are laid by _measure_nsite
         for ny, bond_ops in OPv.items():
-            bra = peps_env.boundary_mps(n=ny, dirn='r')
-            tm = psi.transfer_mpo(n=ny, dirn='v')
-            ket = peps_env.boundary_mps(n=ny, dirn='l')
-            env = mps.Env(bra.conj(), [tm, ket]).setup_(to='first').setup_(to='last')
-            norm_env = env.measure()
+            peps_env.xrange, peps_env.yrange = (0, psi.Nx), (ny, ny + 1)
             for bond, ops in sorted(bond_ops.items()):
-                s0, s1 = bond
-                nx = s0[0]
                 for nz, (op1, op2) in ops.items():
-                    tm[nx].set_operator_(op1)
-                    tm[nx + 1].set_operator_(op2)
-                    env.update_env_(nx + 1, to='first')
-                    env.update_env_(nx, to='first')
-                    tm[nx].del_operator_()
-                    tm[nx + 1].del_operator_()
-                    out[(s0, s1) + nz] = env.measure(bd=(nx - 1, nx)) / norm_env
+                    out[bond + nz] = _measure_nsite(peps_env, op1, op2, sites=bond, dirn='lr')
 
         for nx, bond_ops in OPh.items():
-            bra = peps_env.boundary_mps(n=nx, dirn='b')
-            tm = psi.transfer_mpo(n=nx, dirn='h')
-            ket = peps_env.boundary_mps(n=nx, dirn='t')
-            env = mps.Env(bra.conj(), [tm, ket]).setup_(to='first').setup_(to='last')
-            norm_env = env.measure()
+            peps_env.xrange, peps_env.yrange = (nx, nx + 1), (0, psi.Ny)
             for bond, ops in sorted(bond_ops.items()):
-                s0, s1 = bond
-                ny = s0[1]
                 for nz, (op1, op2) in ops.items():
-                    tm[ny].set_operator_(op1)
-                    tm[ny + 1].set_operator_(op2)
-                    env.update_env_(ny + 1, to='first')
-                    env.update_env_(ny, to='first')
-                    tm[ny].del_operator_()
-                    tm[ny + 1].del_operator_()
-                    out[(s0, s1) + nz] = env.measure(bd=(ny - 1, ny)) / norm_env
+                    out[bond + nz] = _measure_nsite(peps_env, op1, op2, sites=bond, dirn='tb')
 
         return out
 
